@@ -1,32 +1,32 @@
 (* C04 -- Termination under timely delivery with at most f crashed members; no honest message is rejected as
-   unjustified.  PARTIAL.
+   unjustified.  PARTIAL (the termination half is not a theorem).
 
-   STAGE 1 (this file now): the producer/verifier agreement on justifications, single process, over ALL label
-   sequences of the model (Qbft/Model.v) and all map-iteration choices:
-     - every ROUND-CHANGE and every DECIDED the process broadcasts passes isJustified at every receiver with
-       the same node count, whatever the receiver's state;
-     - whatever justification getJustifiedQrc may return (every map order), containsJustifiedQrc accepts it;
-     - every PRE-PREPARE broadcast comes from the leader of its round and carries the empty justification in
-       round 1 or one containsJustifiedQrc accepts.
-   Proofs: Qbft/Justified.v.  The termination half is, at this stage, only observed on the real code (timely
-   cluster schedules in harness/qbft; see the check's evidence) -- not a theorem.
+   Proved here:
+   * [C04_honest_never_unjust]: network level (Qbft/Net.v), no Byzantine members (members may crash, stay silent, start
+     late, broadcast partially; the network may delay, drop, duplicate, reorder), Compare never fails (default
+     configuration): every message any member broadcasts, delivered with the justification it was sent with, passes
+     isJustified at every member, whatever that member's state.  For every n >= 1, leader function, FIFO limit, schedule
+     and Go map order.
+   * single process, over ALL label sequences of the model and all map-iteration choices (also with Byzantine peers and
+     compare failures): every ROUND-CHANGE and every DECIDED the process broadcasts passes isJustified at every receiver;
+     whatever justification getJustifiedQrc may return, containsJustifiedQrc accepts it; every PRE-PREPARE broadcast comes
+     from the leader of its round and carries the empty justification in round 1 or one containsJustifiedQrc accepts.
+   * [C04_rotation_bound]: with the round-robin leader, among any f+1 consecutive rounds one has an honest leader
+     (so at most one rotation passes before an honest leader's round), every n >= 1, at most f Byzantine members.
+   Proofs: Qbft/Justified.v, Qbft/NeverUnjust.v, Qbft/Rotation.v.
 
-   TODO-stage-2 (full intended statements, DESIGN.md section C04; need Qbft/Net.v):
-     | Theorem honest_never_unjust : in every Net trace with Byz = [] (crashed/silent/late processes allowed, any
-        partial broadcast) and without CmpFail, every Bcast output, delivered with the justification it was sent with,
-        satisfies the receiver's isJustified whatever the receiver's state, and respects verifyMsgLimits
-        (<= 2n justification parts).   (What is missing locally: the value of a re-proposal is non-zero and equals the
-        justified prepared value -- needs "every prepare quorum contains an honest PREPARE" from the network level.)
-     | Lemma unjust_refuted_with_cmpfail : with CmpFail the statement is false (a leader whose own compare failed
-        proposes its own value with a justification naming another).
+   | TODO-stage-2 (not proved; DESIGN.md section C04):
      | Theorem good_round_decides : R a set of >= quorum n processes in round r whose leader is in R and has its input
         (or r > 1 and all of R sent ROUND-CHANGE r), everybody else silent, reachable states, every message sent in
         round r among R delivered (any order, duplication, stale messages interleaved) before any timer of R fires and
         fewer than FIFOLimit - 4 deliveries per source: every process of R emits Decide.
-     | Theorem rotation_bound : among any faulty n + 1 consecutive rounds one has a leader outside a given set of
-        <= faulty n processes (round-robin leader). *)
+        At this stage termination is only OBSERVED on the real code (timely cluster schedules in harness/qbft).
+     | Lemma unjust_refuted_with_cmpfail : with CmpFail honest_never_unjust is false (a leader whose own compare failed
+        proposes its own value with a justification naming another).
+     | the verifyMsgLimits clause (<= 2n justification parts) of honest_never_unjust. *)
 From Coq Require Import List NArith Arith Bool.
-From Charon Require Import Common.Quorum Qbft.Model Qbft.Monitor Qbft.ModelFacts Qbft.Justified.
+From Charon Require Import Common.Quorum Qbft.Model Qbft.Monitor Qbft.ModelFacts Qbft.Justified Qbft.Card
+  Qbft.Net Qbft.NetInv Qbft.NeverUnjust Qbft.Rotation.
 Import ListNotations.
 
 (* Every ROUND-CHANGE / DECIDED broadcast of the model is justified for every receiver (params p' with the same
@@ -62,3 +62,17 @@ Print Assumptions C04_preprepare_shape_partial.
 Theorem C04_live_quorum : forall n, 1 <= n -> quorum n <= n - faulty n /\ faulty n < faulty n + 1 <= n.
 Proof. intros n H. exact (conj (nonfaulty_form_quorum n H) (fplus1_has_honest n H)). Qed.
 Print Assumptions C04_live_quorum.
+
+(* honest_never_unjust (network level, no Byzantine members, no compare failures) *)
+Theorem C04_honest_never_unjust : forall c nt tr, wf_cfg c -> (forall k, k < c_n c -> c_honest c k = true) ->
+  nreach c nt tr -> trace_nofail tr ->
+  forall i l b J, In (i, l) tr -> In (Bcast b J) (label_outs l) ->
+  forall j c', justified (pp c j) (mkm b J) c' = true.
+Proof. exact honest_never_unjust. Qed.
+Print Assumptions C04_honest_never_unjust.
+
+(* rotation_bound: leader (off + round) mod n; among rounds r .. r+f one has an honest leader *)
+Theorem C04_rotation_bound : forall n hon off r, 1 <= n -> byz_count n hon <= faulty n ->
+  exists k, k <= faulty n /\ hon (lead_rr off n (r + k)) = true.
+Proof. exact rotation_bound. Qed.
+Print Assumptions C04_rotation_bound.
